@@ -378,6 +378,47 @@ R.contract(
     replayable=False,
 )
 
+
+# ------------------------------------------------------------------------------------------------- Response.from_requests: what the reports say was received is what was received
+CT = "schemathesis.core.transport:"
+_RAWH = {"Content-Type": ["application/json"], "Set-Cookie": ["a=1", "b=2"]}
+R.nominal_methods["spec:RawHeaders"] = {"keys": lambda it, obj, a, k: list(obj.fields["table"].keys()), "getlist": lambda it, obj, a, k: list(obj.fields["table"][a[0]])}
+R.nominal_methods["spec:Elapsed"] = {"total_seconds": lambda it, obj, a, k: obj.fields["seconds"]}
+
+
+class _ResponseClass(D):
+    def make(self, it, name, idx=()):
+        return it.resolve_class(CT + "Response")
+
+
+class _RawHeaders(D):
+    def make(self, it, name, idx=()):
+        from pyvc.values import VObj
+
+        names = [n for n in _RAWH if it.path.choose([(False, True), (True, True)], f"has:{n}")]
+        return VObj(it.resolve_class("spec:RawHeaders"), {"table": {n: list(_RAWH[n]) for n in names}})
+
+
+R.contract(
+    CT + "Response.from_requests",
+    prop="C16",
+    args={"cls": _ResponseClass(), "response": Obj("spec:LibraryResponse", raw=OneOf(NoneT, Obj("spec:RawResponse", headers=_RawHeaders(), version=Choice(10, 11))), status_code=IntRange(100, 599),
+                                                    content=Opq("BodyBytes"), request=Opq("PreparedRequestRef"), elapsed=Obj("spec:Elapsed", seconds=Real), reason=Str, encoding=Opt(Str)), "verify": Bool},
+    raises=[],
+    ensures={
+        # faithful to the traffic: status, body, request and EVERY value of EVERY header (repeated headers such as Set-Cookie keep all their values)
+        "status_body_and_request_of_the_library_response": "result.status_code == response.status_code and result.content is response.content and result.request is response.request and "
+                                                           "same(result.verify, verify) and result.message == response.reason and result.elapsed == response.elapsed.seconds",
+        "every_header_with_all_its_values": "implies(response.raw is not None, length(result.headers) == length(response.raw.headers.table) and "
+                                            "all(n.lower() in result.headers and result.headers[n.lower()] == response.raw.headers.table[n] for n in response.raw.headers.table)) and "
+                                            "implies(response.raw is None, length(result.headers) == 0)",
+        "http_version_of_the_connection": "result.http_version == ('1.0' if response.raw is None or response.raw.version == 10 else '1.1')",
+    },
+    bounded_note="two header names (one repeated)",
+    replayable=False,
+)
+R.spec_funcs["same"] = lambda it, a, b: __import__("pyvc.ops", fromlist=["eq"]).eq(a, b)
+
 LEVEL_TEXT = ("JUnit handler crash-freedom is a deductive obligation over an arbitrary statistic (pyvc/z3). YAML escaping is decided by complete enumeration of all code points "
               "plus a bounded loop-bookkeeping check; cassette structure by a native matrix. Level other: most of the property lives in string formats outside the deductive encoding.")
 LEVEL_NOTE = "Trusted: PyYAML / junit-xml / harfile (E6), Statistic summary contract, pyvc semantics (E9)."
